@@ -239,6 +239,10 @@ structure Sent where
   headers : List Hdr
   cookiePairs : List Cookie
   body : Bytes
+  /-- ghost: what `cookie_jar.filter_cookies(url)` returned for this request -/
+  jarSel : List (Str × Str) := []
+  /-- ghost: the `data` handed to `ClientRequest` (`none` = no body) -/
+  data : Option Body := none
 deriving Repr
 
 inductive Ev where
@@ -410,7 +414,8 @@ def prepare (env : Env) (cfg : Cfg) (st : St env.jar.σ) : Except Err (St env.ja
           | none => false)
         .ok ({ st with url := url, headers := persistent, consumed := consumed },
              { idx := st.idx, since := st.since, url := url, method := st.method, target := target,
-               headers := h5, cookiePairs := mergedCookies env h1 all, body := body })
+               headers := h5, cookiePairs := mergedCookies env h1 all, body := body,
+               jarSel := env.jar.filter st.jar url, data := st.data })
 
 /-! ## `react`: after the response -/
 
